@@ -1,6 +1,10 @@
 package main
 
 import (
+	"strconv"
+	"net/http/httptest"
+	"net/http"
+	"compress/gzip"
 	"github.com/google/go-tdx-guest/verify/trust"
 	"bytes"
 	"sort"
@@ -62,6 +66,85 @@ func c10(r *hx.Run) {
 				return errStr(verify.RawTdxQuote(sampleQuote(), &verify.Options{GetCollateral: true, CheckRevocations: cr, Getter: g}))
 			})
 		}
+	}
+	// the library's own plain getter against a loopback server: responses framed every way HTTP allows (with and without a
+	// Content-Length, chunked, compressed, empty, cut short), error statuses, and requests that fail before any response exists
+	// (refused connection, unsupported scheme, unparsable URL) — a result or an error, and a successful result is what was served
+	{
+		payload := bytes.Repeat([]byte("collateral "), 300)
+		mux := http.NewServeMux()
+		mux.HandleFunc("/length", func(w http.ResponseWriter, _ *http.Request) {
+			w.Header().Set("Content-Length", strconv.Itoa(len(payload)))
+			w.Write(payload)
+		})
+		mux.HandleFunc("/chunked", func(w http.ResponseWriter, _ *http.Request) {
+			for i := 0; i < len(payload); i += 500 {
+				w.Write(payload[i:min(i+500, len(payload))])
+				w.(http.Flusher).Flush()
+			}
+		})
+		mux.HandleFunc("/gzip", func(w http.ResponseWriter, _ *http.Request) {
+			w.Header().Set("Content-Encoding", "gzip")
+			zw := gzip.NewWriter(w)
+			zw.Write(payload)
+			zw.Close()
+		})
+		mux.HandleFunc("/empty", func(w http.ResponseWriter, _ *http.Request) { w.WriteHeader(200) })
+		mux.HandleFunc("/nocontent", func(w http.ResponseWriter, _ *http.Request) { w.WriteHeader(204) })
+		mux.HandleFunc("/short", func(w http.ResponseWriter, _ *http.Request) { // announces more than it sends, then hangs up
+			w.Header().Set("Content-Length", strconv.Itoa(len(payload)+100))
+			w.Write(payload)
+			if hj, ok := w.(http.Hijacker); ok {
+				if c, _, err := hj.Hijack(); err == nil {
+					c.Close()
+				}
+			}
+		})
+		for _, code := range []int{301, 404, 500} {
+			code := code
+			mux.HandleFunc(fmt.Sprintf("/status%d", code), func(w http.ResponseWriter, _ *http.Request) { w.WriteHeader(code); w.Write([]byte("no")) })
+		}
+		srv := httptest.NewServer(mux)
+		dead := httptest.NewServer(mux)
+		deadURL := dead.URL
+		dead.Close()
+		type gcase struct {
+			name, url string
+			wantBody  []byte
+			wantErr   bool
+		}
+		cases := []gcase{{"content-length", srv.URL + "/length", payload, false}, {"chunked", srv.URL + "/chunked", payload, false}, {"gzip", srv.URL + "/gzip", payload, false},
+			{"empty-200", srv.URL + "/empty", []byte{}, false}, {"204", srv.URL + "/nocontent", []byte{}, false}, {"short-body", srv.URL + "/short", nil, true},
+			{"status-301-no-location", srv.URL + "/status301", nil, true}, {"status-404", srv.URL + "/status404", nil, true}, {"status-500", srv.URL + "/status500", nil, true},
+			{"connection-refused", deadURL + "/length", nil, true}, {"unsupported-scheme", "gopher://127.0.0.1/x", nil, true}, {"unparsable-url", "http://[::1", nil, true},
+			{"empty-url", "", nil, true}}
+		for _, c := range cases {
+			c := c
+			for _, wrap := range []string{"simple", "retrying"} {
+				var g trust.HTTPSGetter = &trust.SimpleHTTPSGetter{}
+				if wrap == "retrying" {
+					g = &trust.RetryHTTPSGetter{Timeout: 300 * time.Millisecond, MaxRetryDelay: 50 * time.Millisecond, Getter: &trust.SimpleHTTPSGetter{}}
+				}
+				var body []byte
+				var err error
+				obs, stack := hx.GuardTimeout(30*time.Second, func() string { _, body, err = g.Get(c.url); return errStr(err) })
+				fail := ""
+				switch {
+				case obs == "panic":
+					fail = "crash: " + strings.SplitN(stack, "\n", 2)[0]
+				case obs == "hang":
+					fail = "hang: no result after 30 s"
+				case c.wantErr && err == nil:
+					fail = fmt.Sprintf("a request that cannot have delivered the document returned %d bytes and no error", len(body))
+				case !c.wantErr && err != nil:
+					fail = "a served response was not delivered: " + err.Error()
+				case !c.wantErr && !bytes.Equal(body, c.wantBody):
+					fail = fmt.Sprintf("the body returned (%d bytes) is not the body served (%d bytes)", len(body), len(c.wantBody))
+				}
+				r.Emit("# C10.getter "+wrap+" "+c.name, obs, fail, "getter|"+wrap+"|"+c.name, true, "c10:plain-getter", "obs:"+obs)
+			}
+		}
+		srv.Close()
 	}
 	// RawTdxQuote (verify and validate) on raw bytes
 	intel := sampleQuote()
@@ -304,6 +387,30 @@ func c10(r *hx.Run) {
 				s.Tcb.Mask = v
 			}
 			emitWorld(r, world.Build(s), nil, "collateral-member-length:"+name)
+		}
+	}
+	// TDX module identities with ids of every shape in front of (or instead of) the one the quote's module version selects
+	for _, id := range []string{"", "TDX_", "TDX", "T", "TDX_0", "TDX_1", "TDX_001", "TDX_zz", "tdx_01", "TDX_01 ", "TDX__01", "_", "TDX_\u0000"} {
+		for _, keepHonest := range []bool{true, false} {
+			s := honestSpec(rng)
+			s.Quote.Body.TeeTcbSvn[1] = byte(1 + rng.IntN(3))
+			s.GC, s.CR, s.Honest, s.Fault = true, rng.IntN(4) == 0, false, fmt.Sprintf("module-identity-id-%q", id)
+			odd := world.ModIdentity{ID: id, Levels: []world.ModLevel{{Isvsvn: 0, Status: "UpToDate"}}}
+			hon := world.ModIdentity{ID: fmt.Sprintf("TDX_%02x", s.Quote.Body.TeeTcbSvn[1]), Levels: []world.ModLevel{{Isvsvn: 0, Status: "UpToDate"}}}
+			if keepHonest {
+				s.Tcb.Identities = []world.ModIdentity{odd, hon}
+			} else {
+				s.Tcb.Identities = []world.ModIdentity{odd}
+			}
+			w := world.Build(s)
+			emitWorld(r, w, nil, "module-identity-id")
+			// … and the level-reporting API on the options this verification filled
+			o := &verify.Options{GetCollateral: true, Getter: &world.Getter{M: w.Getter.M}, TrustedRoots: w.Pool(), Now: vTimeSet(w.Spec.Now)}
+			hx.Guard(func() string { verify.TdxQuote(proto.Clone(w.Quote).(*pb.QuoteV4), o); return "" })
+			crashCase("verify.SupportedTcbLevelsFromCollateral-after-verify", fmt.Sprintf("module-identity-id=%q alone=%v", id, !keepHonest), func() string {
+				_, _, err := verify.SupportedTcbLevelsFromCollateral(proto.Clone(w.Quote).(*pb.QuoteV4), o)
+				return errStr(err)
+			})
 		}
 	}
 	for _, mode := range []string{"absent", "two", "three", "empty", "novalues", "nilvalues", "badescape", "wrongtype", "garbageder"} {
